@@ -34,6 +34,8 @@ struct Files {
     next_off: u64,
     opened: Vec<Value>,
     cur_stream: i32,
+    /// the reading end of an earlier, still living Popen's stdout pipe ("file:@earlier": a hand-made pipeline)
+    earlier_out: Option<File>,
 }
 impl Files {
     fn path(name: &str) -> String {
@@ -66,6 +68,11 @@ impl Files {
             "none" => Redirection::None,
             "pipe" => Redirection::Pipe,
             "merge" => Redirection::Merge,
+            "file" if name == "@earlier" => {
+                let f = self.earlier_out.take().expect("an earlier Popen with a stdout pipe");
+                self.note(&f);
+                Redirection::File(f)
+            }
             "file" => {
                 let f = self.fresh(name, write);
                 self.note(&f);
@@ -149,6 +156,8 @@ fn one_spawn(v: &Value, files: &mut Files, out: &mut Vec<String>, idx: usize) {
         drop(cfg);
         cfg = c;
     }
+    // "clone_keep": a clone of the configuration (a template kept for later) stays alive while the original is launched
+    let kept = if v["clone_keep"].as_bool().unwrap_or(false) { Some(cfg.try_clone().expect("try_clone")) } else { None };
     let passed: Vec<Value> = files.opened.drain(..).collect();
 
     // "repoint": between two launches of the same thread the parent re-points its own stdout / stderr at
@@ -256,6 +265,7 @@ fn one_spawn(v: &Value, files: &mut Files, out: &mut Vec<String>, idx: usize) {
         }
     }
     let _ = child_pids;
+    drop(kept);
 }
 
 /// C08's consequence, observed directly: a command A waits for end-of-file on its piped stdin; another thread launches B
@@ -356,7 +366,7 @@ fn run_one_inner(v: &Value, out: &mut Vec<String>) {
 
 fn run_one_body(v: &Value, out: &mut Vec<String>) {
     let _ = fs::create_dir_all(tmpd());
-    let mut files = Files { masters: Default::default(), next_off: 0, opened: vec![], cur_stream: 0 };
+    let mut files = Files { masters: Default::default(), next_off: 0, opened: vec![], cur_stream: 0, earlier_out: None };
     out.push(json!({"e":"reset","id":v["id"],"kind":"spawn","cfg":{
         "stdin":v["stdin"].as_str().unwrap_or("none").split(':').next().unwrap(),
         "stdout":v["stdout"].as_str().unwrap_or("none").split(':').next().unwrap(),
@@ -422,15 +432,23 @@ fn run_one_body(v: &Value, out: &mut Vec<String>) {
         sys_events(out);
         earlier.push(p.unwrap());
     }
+    let mut earlier_out: Option<File> = earlier.get_mut(0).and_then(|p| p.stdout.take());
+    if v["stdin"].as_str() != Some("file:@earlier") {
+        // (not asked for: put it back)
+        if let Some(f) = earlier_out.take() {
+            earlier[0].stdout = Some(f);
+        }
+    }
     let saved_std: Option<(i32, i32)> = v["repoint"].as_i64().map(|w| {
         let keep = unsafe { simk::raw::fcntl(w as i32, libc::F_DUPFD_CLOEXEC, 100) };
         (w as i32, keep)
     });
     let repeat = v["repeat"].as_u64().unwrap_or(1) as usize;
     let in_thread = v["thread"].as_bool().unwrap_or(false);
-    let body = |out: &mut Vec<String>| {
+    let mut body = |out: &mut Vec<String>| {
         let old = set_mask(&mask);
-        let mut files = Files { masters: Default::default(), next_off: 100, opened: vec![], cur_stream: 0 };
+        let mut files = Files { masters: Default::default(), next_off: 100, opened: vec![], cur_stream: 0, earlier_out: None };
+        files.earlier_out = earlier_out.take();
         for i in 0..repeat {
             one_spawn(v, &mut files, out, i);
         }
@@ -442,7 +460,7 @@ fn run_one_body(v: &Value, out: &mut Vec<String>) {
             let mut o = vec![];
             let mask: Vec<i64> = v2["mask"].as_array().map(|l| l.iter().map(|x| x.as_i64().unwrap()).collect()).unwrap_or_default();
             let old = set_mask(&mask);
-            let mut files = Files { masters: Default::default(), next_off: 100, opened: vec![], cur_stream: 0 };
+            let mut files = Files { masters: Default::default(), next_off: 100, opened: vec![], cur_stream: 0, earlier_out: None };
             for i in 0..v2["repeat"].as_u64().unwrap_or(1) as usize {
                 one_spawn(&v2, &mut files, &mut o, i);
             }
